@@ -2,6 +2,7 @@
   Kernel tie: `AccountSummary.Available` (x/subaccount/types/accsummary.go) = the model's `Summary.available`.
 -/
 import Sge.Gen.Kernels
+import SgeProofs.Lemmas.KernelsTie
 import Sge.Subaccount
 namespace Sge.KernelsTie
 open Sge Sge.Subaccount Sge.Gen.Kernels
@@ -11,7 +12,7 @@ theorem krn_tie_SubAvailable (s : Summary) :
     subaccount_AccountSummary_Available s.deposited s.spent s.withdrawn s.lost = s.available := by
   first
     | rfl
-    | (unfold subaccount_AccountSummary_Available Summary.available; omega)
+    | (unfold subaccount_AccountSummary_Available Summary.available; krn_close)
 
 example : subaccount_AccountSummary_Available 100 20 30 5 = 45 := by decide +kernel
 
